@@ -27,7 +27,7 @@ def endpoint_line_cost(pt, metric):
     b = y[0] - m * x[0]
     yh = x * m + b
     ymax, ymin = float(np.max(np.abs(y))), float(np.min(y))
-    if ymax > 1e100 or ymax == 0:
+    if ymax > 1e100 or (ymax == 0 and metric != 'rss'):
         return None
     xr = float(np.max(np.abs(x))) / float(np.min(gaps))          # float64 error of y_hat is ~eps*|m*x| ~ eps*xr*|dy|
     e = LD(1e-16)
@@ -47,6 +47,10 @@ def endpoint_line_cost(pt, metric):
             return None
         v = float(np.sqrt(np.mean((np.log(y + 1) - np.log(yh + 1)) ** 2)))
         return v, 1e-6 * abs(v) + 256 * EPS * (xr + 1.0) * ymax + 64 * EPS
+    if metric == 'rss':
+        rss = float(np.sum((y - yh) ** 2))
+        abs_y = 256 * EPS * (xr + 1.0) * ymax
+        return rss, 1e-6 * rss + 4 * abs_y * float(np.sqrt(rss * len(y)) + abs_y * len(y))
     if metric == 'r2':
         rss = np.sum((y - yh) ** 2)
         tss = np.sum((y - np.mean(y)) ** 2)
